@@ -137,13 +137,14 @@ Lemma shrink_spec : forall l lo nm nm' l', chainG 1 lo l -> lo <= nm -> Forall (
   (forall c, 0 < snd c -> bend c <= nm -> Forall (fun b => bdisj b c) l -> bend c <= nm').
 Proof.
   induction l as [|b l IH]; intros lo nm nm' l' C Lo F E; cbn [shrink] in E.
-  - inversion E; subst. repeat split; auto; try lia. constructor.
+  - inversion E; subst. repeat split; auto; try lia; try constructor.
   - cbn [chainG] in C. destruct C as [Lb [Sb C]]. inversion F as [|? ? Hb F']; subst.
     destruct l as [|b2 l2].
     + fold (bend b) in E. destruct (bend b =? nm) eqn:Q; inversion E; subst.
-      * unfold bend in *. repeat split; auto; try lia. constructor. intros c Sc Hc Fc. inversion Fc; subst.
-        unfold bdisj, bend in *. lia.
-      * unfold bend in *. repeat split; auto; try lia. { cbn. repeat split; auto. } { constructor; [lia|constructor]. }
+      * split; [exact I|]. split; [constructor|]. split; [unfold bend in *; lia|]. split; [intros y []|].
+        intros c Sc Hc Fc. inversion Fc; subst. unfold bdisj, bend in *. lia.
+      * split; [cbn [chainG]; repeat split; auto|]. split; [constructor; [unfold bend in *; lia|constructor]|].
+        split; [lia|]. split; [auto|]. intros; lia.
     + destruct (shrink nm (b2 :: l2)) as [nm2 r] eqn:S. inversion E; subst.
       assert (Lo2 : bend b + 1 <= nm).
       { cbn [chainG] in C. destruct C as [L2 [S2 _]]. inversion F'; subst. unfold bend in *. lia. }
@@ -213,7 +214,7 @@ Proof.
   assert (Ins_in : forall y, In y ins <-> y = (p, sz) \/ In y (free st)) by (subst ins; apply insert_pos_in).
   destruct ins as [|a ins']; [exfalso; apply (Ins_in (p, sz)); auto|].
   cbn [merge] in S. cbn [chainG] in Ci. destruct Ci as [La [Sa Ca]].
-  destruct (merge_from_spec ins' a start La Sa Ca) as [Ch [Dj Up]].
+  rewrite Z.add_0_r in Ca. destruct (merge_from_spec ins' a start La Sa Ca) as [Ch [Dj Up]].
   assert (Hi : Forall (fun b => bend b <= next_mem st) (merge_from a ins')).
   { assert (All : forall y, In y (a :: ins') -> bend y <= next_mem st).
     { intros y Hy. apply Ins_in in Hy. destruct Hy as [->|Hy]; [exact Hx|].
@@ -228,10 +229,9 @@ Proof.
     { intros y Hy. apply Ins_in in Hy. destruct Hy as [->|Hy].
       - rewrite Forall_forall in Dx. apply Dx. auto.
       - rewrite Forall_forall in v_fl0. specialize (v_fl0 y Hy). rewrite Forall_forall in v_fl0. apply v_fl0. apply Sub. auto. }
-    apply Dj; auto. rewrite Forall_forall. intros y Hy. apply All. right; auto. }
+    apply Dj; [exact Sc | apply All; left; auto | rewrite Forall_forall; intros y Hy; apply All; right; auto]. }
   constructor; cbn [free next_mem size_of_mem]; auto.
   - rewrite Forall_forall. intros c Hc. destruct (v_live0 c (Sub c Hc)) as [L1 [S1 H1]]. repeat split; auto.
-    apply Live; auto. apply DL. auto.
   - rewrite Forall_forall. intros f Hf. rewrite Forall_forall. intros c Hc.
     pose proof (DL c Hc) as D. rewrite Forall_forall in D. apply D. apply Sub'. auto.
   - lia.
